@@ -365,9 +365,13 @@ def rule_refresh(rep, res, entry=None):
                                      if outside else " (never assigned at all)")))
             else:
                 ok = definitely_stored(stores, sv)
-                rep.check("R-TYPESTATE", "parameter refreshed per iteration", True if ok else None, where=stores[0].loc,
+                und = [g[0] for s_ in stores for g in _rel_guards(s_, sv) if len(g) > 3 and not g[3]]
+                st = True if ok else (False if und else None)
+                rep.check("R-TYPESTATE", "parameter refreshed per iteration", st, where=stores[0].loc,
                           construct=f"{norm_text(stores[0].node)}", entry=entry, config=res.config,
-                          msg="stored on every path to solve" if ok else "stored only under a guard")
+                          msg="stored on every path to solve" if ok else
+                          f"the Parameter declared at {decl} is assigned inside the solve loop only under the guard(s) {sorted(set(und))}: on the "
+                          f"other path the value of the previous iteration (another row) is solved again")
 
 
 def rule_defassign(rep, res, entry=None, funcs=None):
